@@ -34,7 +34,12 @@ def tb14(facts, rep, rule='TB-14'):
             if info and ('BitSet' in info['fn'] or 'bit_set' in info['fn']) and info['fn'].rsplit('::', 1)[-1] in (
                     'union', 'intersection', 'difference', 'symmetric_difference', 'union_with', 'intersect_with',
                     'difference_with', 'symmetric_difference_with'):
-                args = [fmt(strip(b.expr_operand(a, inline_user=True))) for a in t['args']]
+                roots = b.param_roots()
+                args = []
+                for a in t['args']:
+                    pl = a.get('m') or a.get('c')
+                    r = roots[pl['l']] & {1, 2} if pl is not None else set()
+                    args.append('self' if r == {1} else 'other' if r == {2} else 'mixed%s' % sorted(r))
                 ops.append((bb, info['fn'].rsplit('::', 1)[-1], args))
         want = {'union': ('union', 'union_with'), 'intersection': ('intersection', 'intersect_with'),
                 'difference': ('difference', 'difference_with')}[nm]
@@ -43,7 +48,8 @@ def tb14(facts, rep, rule='TB-14'):
         elif ops[0][1] not in want:
             rep.bad(rule, key, b.loc(ops[0][0]), 'Alphabet::%s is computed with BitSet::%s: the result contains / lacks symbols '
                                                  'whenever neither alphabet contains the other' % (nm, ops[0][1]))
-        elif len(ops[0][2]) == 2 and not ('self' in ops[0][2][0] and 'other' in ops[0][2][1]) and nm == 'difference':
+        elif len(ops[0][2]) == 2 and nm == 'difference' and not (
+                ops[0][2] == ['self', 'other'] or (ops[0][1].endswith('_with') and ops[0][2][1] == 'other' and ops[0][2][0] != 'other')):
             rep.bad(rule, key, b.loc(ops[0][0]), 'difference is taken as (%s) - (%s), expected self - other' % tuple(ops[0][2]))
         else:
             rep.ok(rule, key, b.loc(ops[0][0]), 'BitSet::%s' % ops[0][1])
@@ -172,6 +178,56 @@ def ao3(facts, rep, rule='AO-3'):
     rep.floor(rule, 'forwarding constructors', n, 6)
 
 
+def upvar_interval_fn(facts):
+    """interval of a closure's captured variable = interval of the captured operand at the closure literal of the parent"""
+    from . import eng_po
+    cache = {}
+
+    def f(cb, o):
+        if cb.kind != 'Closure':
+            return None
+        e = fmt(strip(cb.expr_operand(o, inline_user=True)))
+        m = re.fullmatch(r'\(?\*?\(?_1\.\^(\w+)\)?\)?|arg1\.\^(\w+)', e)
+        if not m:
+            return None
+        name = m.group(1) or m.group(2)
+        ups = [u.get('name') for u in (cb.raw.get('upvars') or [])]
+        if name not in ups:
+            return None
+        k = ups.index(name)
+        pb = facts.bodies.get(cb.raw.get('parent') or cb.raw.get('root'))
+        if pb is None:
+            return None
+        pv = facts.view(pb)
+        if pv.path not in cache:
+            cache[pv.path] = eng_po.Intervals(pv, facts).run()
+        ia = cache[pv.path]
+        for bb in sorted(pv.reachable(0)):
+            for i, st in enumerate(pv.stmts(bb)):
+                if st['k'] == 'assign' and st['r'].get('k') == 'agg' and st['r'].get('ak') == 'closure' and \
+                        st['r'].get('closure') == cb.path and k < len(st['r']['ops']) and bb in ia.instates:
+                    state = ia.copy_state(ia.instates[bb])
+                    for j, s2 in enumerate(pv.stmts(bb)[:i]):
+                        ia.transfer_stmt(state, bb, j, s2)
+                    op = st['r']['ops'][k]
+                    v = ia.operand(state, op)
+                    pl = op.get('m') or op.get('c')
+                    if pl is not None and (pv.locals[pl['l']]['ty'].startswith('&')):
+                        # captured by reference: the interval of the referent
+                        for bb2 in sorted(pv.reachable(0)):
+                            for i2, s3 in enumerate(pv.stmts(bb2)):
+                                if s3['k'] == 'assign' and s3['p']['l'] == pl['l'] and not s3['p'].get('pj') and s3['r']['k'] == 'ref' \
+                                        and not s3['r']['p'].get('pj') and bb2 in ia.instates:
+                                    st2 = ia.copy_state(ia.instates[bb2])
+                                    for j, s4 in enumerate(pv.stmts(bb2)[:i2]):
+                                        ia.transfer_stmt(st2, bb2, j, s4)
+                                    return ia.operand(st2, {'c': {'l': s3['r']['p']['l']}})
+                        return None
+                    return v
+        return None
+    return f
+
+
 # ------------------------------------------------------------------------------------------------ NC-3 (C20)
 def nc3(facts, rep, rule='NC-3'):
     from . import eng_po
@@ -186,7 +242,7 @@ def nc3(facts, rep, rule='NC-3'):
         v = facts.view(b)
         if not any(s['k'] == 'assign' and s['r']['k'] == 'cast' for bb in v.reachable(0) for s in v.stmts(bb)):
             continue
-        for c in narrowing_casts(v, eng_po.Intervals(v, facts).run()):
+        for c in narrowing_casts(v, eng_po.Intervals(v, facts).run(), upvar_interval=upvar_interval_fn(facts)):
             n += 1
             key = '%s|%s->%s' % (b.path, c['from'], c['to'])
             rep.analysed_body(v)
@@ -296,7 +352,14 @@ def tb5b(facts, rep, rule='TB-5'):
             logs.append((bb, info['fn'].rsplit('::', 1)[-1], [fmt(strip(b.expr_operand(a, inline_user=True))) for a in t['args']]))
     l10 = [x for x in logs if x[1] == 'log10']
     others = [x for x in logs if x[1] in ('max', 'min', 'clamp')]
-    if len(l10) == 1 and not others and re.fullmatch(r'\(?\*?\(?p\)?(\.0)?\)?|Deref>::deref\(p\)|p\.0', l10[0][2][0].replace(' ', '')):
+    def plain_param(txt):
+        # the parameter itself, its payload or a dereference of it - however the parameter is named or destructured
+        t = txt.replace(' ', '')
+        t = re.sub(r'^Deref>::deref\((.*)\)$', r'\1', t)
+        t = t.strip('()*')
+        t = re.sub(r'\.0$', '', t).strip('()*')
+        return bool(re.fullmatch(r'_1|arg1|[A-Za-z_]\w*', t)) and '(' not in t
+    if len(l10) == 1 and not others and plain_param(l10[0][2][0]):
         rep.ok(rule, key, b.loc(l10[0][0]), 'log10 of the probability itself')
     else:
         rep.bad(rule, key, '%s:%s' % (b.file, b.line), 'the conversion is not -10 * log10 of the unmodified probability (calls: %s): '
